@@ -17,6 +17,7 @@ pub mod c15;
 pub mod c16;
 pub mod c18;
 pub mod c19;
+pub mod c20;
 pub mod net;
 pub mod smoke;
 pub mod srv;
@@ -25,6 +26,7 @@ pub fn run(a: &Args) -> Report {
     match a.prop.as_str() {
         "smoke" => smoke::run(a),
         "c19" => c19::run(a),
+        "c20" => c20::run(a),
         "c18" => c18::run(a),
         "c10" => c10::run(a),
         "c07" => c07::run(a),
@@ -46,5 +48,22 @@ pub fn run(a: &Args) -> Report {
             r.inconclusive(&format!("unknown property {other}"));
             r
         }
+    }
+}
+
+/// Run one scenario; a panic that escapes it (typically an API call failing because the actor
+/// thread died) becomes a violation named after the first panic location inside the crate.
+pub fn guarded(r: &mut Report, case: serde_json::Value, f: impl FnOnce(&mut Report)) {
+    let res = std::panic::catch_unwind(std::panic::AssertUnwindSafe(|| f(r)));
+    if res.is_err() {
+        let panics = crate::take_panics();
+        let root = panics
+            .iter()
+            .find(|p| p.1.contains("/repo/src") || p.1.starts_with("src/") && !p.2.contains("unexpectedly shut") && !p.1.contains("props/"))
+            .or(panics.first())
+            .cloned()
+            .unwrap_or_default();
+        let loc = root.1.replace("/repo/", "");
+        r.violation(&format!("panic/{loc}"), &format!("panic during the scenario (thread {}): {}", root.0, root.2), case, serde_json::json!({"all_panics": panics.iter().map(|p| format!("{} @ {}: {}", p.0, p.1, p.2)).collect::<Vec<_>>() }));
     }
 }
